@@ -129,6 +129,8 @@ func (eap *EAP) Unmarshal(b []byte) error {
 
 		eap.Code = EapCode(b[0])
 		eap.Identifier = b[1]
+		// decoding into an EAP that was used before must not keep the type data of the previous packet
+		eap.EapTypeData = nil
 
 		// EAP Success or Failure
 		if eapPayloadLength == 4 {
